@@ -193,6 +193,16 @@ def run(ctx):
     EXPECT[c] = [None, None, None, None, ("events", nodelib.norm_events("R a 6166746572 , R a 73796e63")), "1"]
     cases.append(c)
 
+    # a process that is busy while more messages arrive for it than its mailbox holds (capacity 1000): the receiver waits
+    # for room, nothing addressed to it is lost, and the connection keeps routing for the others
+    for n in (1000, 1001, 1500):
+        c = SEP.join(["node 1", "spawn", "spawn", "send $1 a " + hx(b"park"), "pflood $1 %d i 1" % n, "expire", "open", "sync", "expire",
+                      "events $1", "events $0", "conns"])
+        EXPECT[c] = [None, None, "ok", None, None, None, None, None,
+                     ("events", nodelib.norm_events(" , ".join(["R a " + hx(b"park")] + ["R i 1"] * n))),
+                     ("events", nodelib.norm_events("R a 73796e63")), "1"]
+        cases.append(c)
+
     def classify(c, impl):
         out = []
         for s in c.split(SEP)[1:]:
